@@ -184,10 +184,11 @@ def sharedGraph (u : List Ent) : Bool := !decide ((u.map Ent.id).Nodup)
     universe, so its depth is positive and it is not in the initial queue; afterwards a node is
     pushed only when its counter reaches 0, i.e. at most once.  Hence every distinct node is
     popped at most once, `num_of_sorted_nodes <= #distinct nodes < len(nodes)`, and the cycle test
-    raises `ValueError` before any re-linking.  The model returns `none` in that case (this
-    branch is a derived summary, not a line-by-line transcription; it is compared with the real
-    code on generated shared-graph trees on every run).  All C12 theorems about successful sorts
-    assume `WF` (distinct ids), under which this branch is dead. -/
+    raises `ValueError` before any re-linking.  The model returns `none` in that case.  This
+    branch is a summary; the argument above is machine-checked on the line-by-line transcription
+    with identity-keyed dicts (`Model/SortIds.lean`, `C12_ids_shared_raises`), and both are
+    compared with the real code on generated shared-graph trees on every run.  All C12 theorems
+    about successful sorts assume `WF` (distinct ids), under which this branch is dead. -/
 def sortModel (g : MGraph) : Option (List (Nat × List Nat)) :=
   let u := nodesOf g
   let out := kahn u.length (predsAt u)
